@@ -121,3 +121,6 @@ class Tolerancing:
 
         for compensator in self.compensator.variables:
             compensator.reset()
+
+        # surfaces governed by pickups or solves follow the restored values
+        self.optic.update()
